@@ -16,6 +16,7 @@ type verifArg struct {
 	T string // int32 uint8 int8 uint32 float64 bool string int(untyped→Int)
 	V uint64 // integer value / float bits / bool
 	S string
+	B []byte // string content as raw bytes (JSON cannot carry invalid UTF-8 in S)
 }
 
 type verifProgReq struct {
@@ -64,6 +65,9 @@ func (a verifArg) value() Value {
 	case "bool":
 		return Bool(a.V != 0)
 	case "string":
+		if a.B != nil {
+			return String(string(a.B))
+		}
 		return String(a.S)
 	}
 	panic("verifArg: unknown type " + a.T)
@@ -128,7 +132,7 @@ func verifLoadCall(files map[string]string, pkg string, entry string, nres int, 
 }
 
 func verifDescribe(v Value) map[string]interface{} {
-	m := map[string]interface{}{"T": int(v.t), "Num": math.Float64bits(v.num), "Str": v.String()}
+	m := map[string]interface{}{"T": int(v.t), "Num": math.Float64bits(v.num), "Str": v.String(), "StrB": []byte(v.String())}
 	return m
 }
 
@@ -159,6 +163,7 @@ func verifRunProg(p *verifProgReq, resp map[string]interface{}) {
 	resp["EvalErr"] = verifErrText(o.evalErr)
 	resp["CallErr"] = verifErrText(o.callErr)
 	resp["Out"] = o.out
+	resp["OutB"] = []byte(o.out)
 }
 
 var _ = strings.Join
